@@ -355,7 +355,12 @@ func init() {
 		ID: "C05",
 		Units: func(tier string, seed int64, sh *Shared) []Unit {
 			c := tierConfigs(tier)
-			return shapeUnitsMax(tier, "VerifC05", [][]string{{c}}, [][]string{{c}}, 7)
+			units := shapeUnitsMax(tier, "VerifC05", [][]string{{c}}, [][]string{{c}}, 7)
+			// the library's own fetchers with variables registered only in an extended config
+			for _, ks := range []string{"0", "1", "0,1", "1,2", "0,1,2", "1,2,3", "5,6", "0,255", "3,300", "-1,2", "254,255"} {
+				units = append(units, Unit{"VerifC05Fetchers", []string{ks, "slice"}}, Unit{"VerifC05Fetchers", []string{ks, "map"}})
+			}
+			return units
 		},
 		Reach:       []string{"kleene-definite", "kleene-undecided", "dne"},
 		Bounds:      shapeBounds(map[string]interface{}{"availability": "arbitrary mask (one symbolic Boolean per variable)"}),
@@ -381,6 +386,19 @@ func init() {
 		Units: func(tier string, seed int64, sh *Shared) []Unit {
 			c := tierConfigs(tier)
 			units := shapeUnitsMax(tier, "VerifC07", [][]string{{"foot", "", "v", c}}, [][]string{{"foot", "event", "v", c}}, 7)
+			// deep operand stacks (allocation classes 8 / 16 / program size) and list operators with long literals
+			for _, d := range []int{7, 8, 9, 15, 16, 17, 20} {
+				src := strings.Repeat("(+ i0 ", d) + "i1" + strings.Repeat(")", d)
+				units = append(units, Unit{"VerifC07", []string{"(> " + src + " i2)", "foot", "", "v", c}})
+				units = append(units, Unit{"VerifC07", []string{"(> " + src + " i2)", "hist", "", "v", "0000,1111"}})
+			}
+			units = append(units, Unit{"VerifC07", []string{"(> (+ i0 i1 i2 i3 i4 i5 i6 i7 i8 i9 i10 i11 i12 i13 i14 i15 i16 i17) i18)", "foot", "event", "v", c}})
+			for _, src := range []string{"(in i0 (1 2 3 4 5 6 7 8 9 10 11 12))", "(and b0 (in i0 (1 2 3 4 5 6 7 8 9)) (in i1 (1 2)))", "(overlap (1 2 3 4 5 6 7 8 9 10) (11 12 13 14 15 16 17 18 19 20 1))",
+				"(or (in i0 (3 4 5 6 7 8 9 10 11)) (= i1 (+ i0 1)))", "(if (in i0 (1 2 3 4 5 6 7 8 9)) (+ i1 1) (- i1 1))"} {
+				units = append(units, Unit{"VerifC07", []string{src, "foot", "", "v", c}})
+				units = append(units, Unit{"VerifC07", []string{src, "foot", "event", "v", "0000,1111"}})
+				units = append(units, Unit{"VerifC07", []string{src, "hist", "", "v", "0000,1111"}})
+			}
 			// debug mode and the history clause on the small family
 			small := 1
 			if tier == "thorough" {
@@ -412,8 +430,20 @@ func init() {
 			}
 			for _, src := range shapeFamily(maxM, pol, false, "BI") {
 				units = append(units, Unit{"VerifC10", []string{src, "", "all"}})
-				if strings.Contains(src, "(p ") || strings.Contains(src, "(q ") {
-					units = append(units, Unit{"VerifC10", []string{src, "pq", "all"}})
+				hasP, hasQ, hasZ := strings.Contains(src, "(p "), strings.Contains(src, "(q "), strings.Contains(src, "(z)")
+				if hasP || hasQ || hasZ {
+					units = append(units, Unit{"VerifC10", []string{src, "pqz", "all"}})
+					units = append(units, Unit{"VerifC10", []string{src, "pqz", "all", "value"}})
+					// one operator declared, the others merely registered
+					if hasP {
+						units = append(units, Unit{"VerifC10", []string{src, "qz", "all"}})
+					}
+					if hasQ {
+						units = append(units, Unit{"VerifC10", []string{src, "pz", "all"}})
+					}
+					if hasZ {
+						units = append(units, Unit{"VerifC10", []string{src, "pq", "all"}})
+					}
 				}
 			}
 			for _, src := range []string{
@@ -421,7 +451,8 @@ func init() {
 				"(and (p KB0) (> (/ 7 KI0) i0) b0)", "(or (p true) (p false) b0)", "(+ (q 1) (q KI0) i0)", "(and b0 (or KB0 (p b1)) (not (p KB1)))",
 				"(and (or b0 KB0) (or KB1 b1) b2)", "(or (and b0 KB0) (and KB1 b1) b2)", "(if KB0 (and b0 KB1) (or b1 KB2))",
 			} {
-				units = append(units, Unit{"VerifC10", []string{src, "", "all"}}, Unit{"VerifC10", []string{src, "pq", "all"}})
+				units = append(units, Unit{"VerifC10", []string{src, "", "all"}}, Unit{"VerifC10", []string{src, "pqz", "all"}}, Unit{"VerifC10", []string{src, "p", "all"}},
+					Unit{"VerifC10", []string{src, "q", "all"}}, Unit{"VerifC10", []string{src, "pqz", "all", "value"}})
 			}
 			return units
 		},
@@ -529,8 +560,8 @@ func init() {
 			}
 			return units
 		},
-		Reach:       []string{"recompiled", "folded-to-scalar"},
-		Bounds:      shapeBounds(map[string]interface{}{"leaves": "variables and int/bool literals (each single leaf a literal, all literals, all but the last)", "event_modes": "off for all shapes; ReportEvent and Debug for shapes with ≤1 internal node",
+		Reach: []string{"recompiled", "folded-to-scalar"},
+		Bounds: shapeBounds(map[string]interface{}{"leaves": "variables and int/bool literals (each single leaf a literal, all literals, all but the last)", "event_modes": "off for all shapes; ReportEvent and Debug for shapes with ≤1 internal node",
 			"string_literals": "literals of ≤2 (3 thorough) arbitrary characters (all of Latin-1 as solver variables + U+1680, U+2028, U+3000, '中', '٣', U+FFFD, U+10FFFF, NUL; no double quote) as operand of =, inside an indented sub-expression and as list element"}),
 		Rule:        "one unit per (shape, event mode); all 16 subsets per unit; a state is one symbolic path through Eval of the original and of the recompiled program",
 		Assumptions: []string{"string/list literal contents are covered by the literal sub-check (symbolic characters), see evidence bounds; constants produced by folding a stateless custom operator have no literal form (outside the property)"},
@@ -744,7 +775,7 @@ func init() {
 		Reach: []string{"existing", "new", "layout"},
 		Bounds: func(tier string) map[string]interface{} {
 			return map[string]interface{}{"key_allocation": "0..3 (4 thorough) pre-registered names with arbitrary pairwise distinct int16 keys (solver variables), then ≤3 registrations of new/existing names",
-				"layouts": "8 explicit concrete key triples on both sides of the 0..255 fetcher boundary, arbitrary distinct symbolic keys with at least one outside 0..255 (map fetcher), GetOrRegisterKey in all 6 orders, RegVarAndOp and the Eval convenience function under every map iteration order, undefined-variable mode",
+				"layouts":  "8 explicit concrete key triples on both sides of the 0..255 fetcher boundary, arbitrary distinct symbolic keys with at least one outside 0..255 (map fetcher), GetOrRegisterKey in all 6 orders, RegVarAndOp and the Eval convenience function under every map iteration order, undefined-variable mode",
 				"bindings": "17 Go kinds (int, int8-64, uint8-64, bool, string, time.Time, Duration, []int, []int32, []int64, []string) with arbitrary contents, every kind in every variable position"}
 		},
 		Rule:        "key units: one per (pre-registered count, script); layout units: one per (layout, kind vector); a state is one symbolic path",
@@ -777,6 +808,15 @@ func init() {
 					u("stack", d, o, "event")
 				}
 				u("stack", d, "1111", "debug")
+			}
+			// an operand-less operator call is a push as well: at the deepest position around the 8 / 16 classes
+			for _, n := range []string{"7", "8", "9", "10", "15", "16", "17", "18"} {
+				for _, o := range []string{"0000", "1111"} {
+					u("nullary", n, o, "")
+				}
+				u("nullary", n, "0010", "event")
+				u("nullary-nested", n, "0000", "")
+				u("nullary-nested", n, "1111", "")
 			}
 			for _, n := range []string{"16382", "16383", "16384", "16385"} {
 				u("nodes", n, "0000", "event")
@@ -861,7 +901,7 @@ func init() {
 			return map[string]interface{}{"versions": "pairs of texts with 1..5 components of 1, 4 or 5 arbitrary decimal digits each (solver variables; 9999/10000/99999 reachable), valid length default and 1..4",
 				"dates": "layout selection for EVERY text (time.Parse uninterpreted) for all 8 operators with default and supplied layouts; 132 concrete texts against Unix seconds computed independently (Python calendar.timegm) across epoch, leap-year, century, 2038 and year-1/9999 boundaries"}
 		},
-		Rule:        "version units: one per (operator, skeleton pair, valid length); the order query is decided by cvc5 with --solve-bv-as-int=sum (bit-blasting res*10000+v times out); date units: concrete table + symbolic layout-selection units",
+		Rule: "version units: one per (operator, skeleton pair, valid length); the order query is decided by cvc5 with --solve-bv-as-int=sum (bit-blasting res*10000+v times out); date units: concrete table + symbolic layout-selection units",
 		Assumptions: []string{"chronological monotonicity of time.Parse∘Unix is a property of the Go standard library and is not decided here (time.Parse is an uninterpreted function in the symbolic date units; a concrete table is run natively-equivalent through the executor)",
 			"signed components (+1, -1 are accepted by ParseInt) are outside the stated domain and not asserted either way"},
 		TimeoutMs:  60000,
@@ -933,7 +973,7 @@ func init() {
 				l, n = 3, 4
 			}
 			return map[string]interface{}{"text": "every text of ≤" + itoa(l) + " characters, and 1-2 arbitrary characters inside 11 prefix/infix contexts; characters: all of Latin-1 (solver variable) plus U+1680, U+2028, U+3000, '中', '٣', U+FFFD, U+10FFFF, NUL; both notations",
-				"tokens": "every vector of ≤" + itoa(n) + " tokens (infix) / ≤" + itoa(n+1) + " tokens starting with '(' (prefix) over a 19-token vocabulary, driven through parseAstTree→optimize→check→buildExpr→Eval/TryEval/Dump (nondeterministic choice, exhaustive; the parser is control code and needs no solver reasoning)",
+				"tokens":   "every vector of ≤" + itoa(n) + " tokens (infix) / ≤" + itoa(n+1) + " tokens starting with '(' (prefix) over a 19-token vocabulary, driven through parseAstTree→optimize→check→buildExpr→Eval/TryEval/Dump (nondeterministic choice, exhaustive; the parser is control code and needs no solver reasoning)",
 				"run_time": "shapes ≤1 internal node with EVERY variable bound to any of {int64, bool, string, []int64, []string, nil, empty list}; larger shapes with one such variable; 12 operator applications with all operands any-typed; events on/off"}
 		},
 		Rule:        "panic / hang edges (index and slice bounds, nil dereference, failed type assertion, uncomparable ==, division by zero, makeslice, send on a full or nil channel) are obligations on every symbolic path; each sat answer is replayed through the public API",
@@ -1107,7 +1147,7 @@ func init() {
 			}
 			return map[string]interface{}{"templates": "all expression trees with ≤" + itoa(m) + " operator nodes over: binary infix operator, unary !, f(a,b) / f(a,b,c) calls, if(c,a,b), in(x,[1 2 3]), variable/literal/constant leaves; plus 10 shapes with 3 binary operators in every association",
 				"operators": "every binary slot ranges over all 16 infix spellings (nondeterministic choice: 16^k combinations per template)", "renderings": "minimal parentheses from the documented precedence table, full parentheses, one redundant pair around every sub-expression",
-				"bindings":  "arbitrary int64 / bool per variable (solver variables), typed from the leaf's context"}
+				"bindings": "arbitrary int64 / bool per variable (solver variables), typed from the leaf's context"}
 		},
 		Rule:        "one unit per template; a state is one symbolic path (operator choice × evaluation path); the parser is control code, so the operator quantifier is discharged by forking and the solver decides the evaluation equivalence",
 		Assumptions: []string{"nested unary ! is rendered with parentheses (!!a is rejected by the lexer); x in [..] has no infix spelling (in(x, [..]) is used)"},
@@ -1141,7 +1181,7 @@ func init() {
 				"children": "variables carry arbitrary int64 / bool values (solver variables) or DNE, numeric literals are arbitrary values in their range, so at level 1 the operands range over every possible child result; the code computing Res from the children's Res is the same at every level ≥ 1",
 				"options":  "both result types × {variables, conditions, TryEval/DNE} quick: none and all at level 1 (every subset at level 0); thorough: every subset at level 1"}
 		},
-		Rule:        "one unit per (level, result type, option set); a state is one symbolic path through the generator, Compile and Eval/TryEval plus the reference evaluator",
+		Rule: "one unit per (level, result type, option set); a state is one symbolic path through the generator, Compile and Eval/TryEval plus the reference evaluator",
 		Assumptions: []string{"levels ≥ 2 are not run: their sub-expressions are arbitrary children of the level-1 step; that a sub-expression can be replaced by a variable bound to its value without changing the result is compositionality of evaluation (C01/C05)",
 			"(*rand.Rand).Intn(n) returns an arbitrary value in [0,n) (over-approximates every seed); numeric literal texts produced by strconv.Itoa are abstracted as constants of the same value"},
 		WallBudget: shapeBudget,
